@@ -26,7 +26,8 @@ RULE = ('strings from an adversarial grammar (every Unicode whitespace kind, cas
         '(string, boolean, integer, float, enum with/without empty, regex with the shipped patterns, SSN), supplied in the file and '
         'at the prompt; oracle = independent reference gate (valid => typed finite value equal to the reference value, else '
         'InvalidInput / re-prompt; supplied never missing; absent never defaulted). Non-trivial = a string that is not the canonical '
-        'spelling of its value (differs from str(value)); distinct = (class, string)')
+        'spelling of its value (differs from str(value)); distinct = (class, string)'
+        ' A rejected file value is also solved with a declining prompt available: it stays an invalid input, never a missing one.')
 ASSUMPTIONS = ['reference gate for integer/float uses Python int()/float() on the stripped text plus finiteness, the documented format '
                'suggestions for boolean/enum/SSN, and re.match for regex inputs',
                'texts with "%" are an INI-interpolation matter (C13/C14/C20), excluded from this domain at the file level']
